@@ -3,7 +3,7 @@
    uni (Unicode digit/space map of int()) are universally quantified oracles. *)
 From Coq Require Import List NArith ZArith Bool.
 Import ListNotations.
-Require Import Verif.Lib.Wire Verif.Lib.Text Verif.Lib.Utf8 Verif.Lib.C09Base Verif.Gen.Facts_C09 Verif.Model.C09 Verif.Proofs.C09 Verif.Proofs.C09_rt Verif.Proofs.C09_more Verif.Proofs.C09_gen.
+Require Import Verif.Lib.Wire Verif.Lib.Text Verif.Lib.Utf8 Verif.Lib.C09Base Verif.Gen.Facts_C09 Verif.Model.C09 Verif.Proofs.C09 Verif.Proofs.C09_rt Verif.Proofs.C09_more Verif.Proofs.C09_gen Verif.Proofs.C09_w5.
 
 (* "no cookie at all is accepted unless its digest field is exactly the keyed digest of its
    other fields": for EVERY cookie text, configuration, address and clock *)
@@ -194,8 +194,11 @@ Theorem C09_generated_get_cookies_is_model : forall c r value ma,
 Proof. exact gen_get_cookies_is_model. Qed.
 Print Assumptions C09_generated_get_cookies_is_model.
 
-Theorem C09_generated_remember_is_model : forall H c r st u ma toks,
-  gen_remember H c r st u ma toks = remember_result st (remember H c r u ma toks).
+(* remember() may be handed an object of any type: a str / int / bytes (UKnown) goes through its table entry, anything
+   else (UOther: bool, float, None, SUBCLASSES of str / int / bytes -- the lookup is by exact type) is str()-converted
+   and stored as text; uarg_val is that conversion *)
+Theorem C09_generated_remember_is_model : forall H c r st a ma toks,
+  gen_remember H c r st a ma toks = remember_result st (remember H c r (uarg_val a) ma toks).
 Proof. exact gen_remember_is_model. Qed.
 Print Assumptions C09_generated_remember_is_model.
 
@@ -205,7 +208,7 @@ Proof. exact gen_identify_is_model. Qed.
 Print Assumptions C09_generated_identify_is_model.
 
 Theorem C09_generated_run_is_model : forall H dsz uni c r ops st,
-  gen_run_ops H dsz uni c r st ops = run_ops H dsz uni c r st ops.
+  gen_run_ops H dsz uni c r st ops = run_ops H dsz uni c r st (map op_of ops).
 Proof. exact gen_run_ops_is_model. Qed.
 Print Assumptions C09_generated_run_is_model.
 
@@ -226,7 +229,7 @@ Proof. exact gen_identify_total. Qed.
 Print Assumptions C09_identify_total_generated.
 
 Theorem C09_reissue_once_generated : forall H dsz uni c r ops,
-  response_cookies (fst (gen_run_ops H dsz uni c r st0 ops)) = spec_response H dsz uni c r ops.
+  response_cookies (fst (gen_run_ops H dsz uni c r st0 ops)) = spec_response H dsz uni c r (map op_of ops).
 Proof. exact gen_reissue_once. Qed.
 Print Assumptions C09_reissue_once_generated.
 
@@ -241,18 +244,18 @@ Theorem C09_ticket_roundtrip_generated : forall H dsz uni alg ip t sec enc toks 
 Proof. exact gen_ticket_roundtrip. Qed.
 Print Assumptions C09_ticket_roundtrip_generated.
 
-Theorem C09_issued_ticket_never_raises_generated : forall H dsz uni c r r' u ma toks st1 st1' hs k v st,
+Theorem C09_issued_ticket_never_raises_generated : forall H dsz uni c r r' a ma toks st1 st1' hs k v st,
   (forall a x, length (H a x) = (dsz a * digest_mult)%nat) ->
   (forall a x, exists c r, H a x = c :: r /\ c <> strip_ch) ->
-  (0 <= now r < 4294967296)%Z -> wf_uval u ->
-  gen_remember H c r st1 u ma toks = (st1', Some hs) -> In k hs -> ck_value k = Some v ->
+  (0 <= now r < 4294967296)%Z -> wf_uval (uarg_val a) ->
+  gen_remember H c r st1 a ma toks = (st1', Some hs) -> In k hs -> ck_value k = Some v ->
   cookie r' = Some v -> eff_ip c r' = eff_ip c r ->
   snd (gen_identify H dsz uni c r' st) <> IRaise.
 Proof. exact gen_issued_ticket_never_raises. Qed.
 Print Assumptions C09_issued_ticket_never_raises_generated.
 
-Theorem C09_cookie_attributes_generated : forall H c r st u ma toks st' hs k,
-  gen_remember H c r st u ma toks = (st', Some hs) -> In k hs ->
+Theorem C09_cookie_attributes_generated : forall H c r st a ma toks st' hs k,
+  gen_remember H c r st a ma toks = (st', Some hs) -> In k hs ->
   attrs_ok c r ma k = true /\ exists v, ck_value k = Some v.
 Proof. exact gen_cookie_attributes. Qed.
 Print Assumptions C09_cookie_attributes_generated.
@@ -269,12 +272,12 @@ Theorem C09_two_helpers_accept_implies_digest : forall H dsz uni c0 r0 c1 r1 ops
 Proof. exact (fun H dsz uni c0 r0 c1 r1 ops st => two_helpers_accept_implies_digest H dsz uni c0 r0 c1 r1 ops st). Qed.
 Print Assumptions C09_two_helpers_accept_implies_digest.
 
-Theorem C09_two_helpers_accept_implies_digest_generated : forall H dsz uni c0 r0 c1 r1 ops st,
+Theorem C09_two_helpers_accept_implies_digest_generated : forall H dsz uni pol c0 r0 c1 r1 ops st,
   (forall a x, forallb valid_scalar (H a x) = true) ->
   (forall ck0, cookie r0 = Some ck0 -> forallb valid_scalar ck0 = true) ->
   (forall ck0, cookie r1 = Some ck0 -> forallb valid_scalar ck0 = true) ->
   Forall2 (fun (bo : bool * op) x => if fst bo then answer_ok H dsz uni c1 r1 x else answer_ok H dsz uni c0 r0 x)
-          ops (snd (gen_run_ops2 H dsz uni c0 r0 c1 r1 st ops)).
+          (map op2_of ops) (snd (gen_run_ops2 H dsz uni pol c0 r0 c1 r1 st ops)).
 Proof. exact gen_two_helpers_accept_implies_digest. Qed.
 Print Assumptions C09_two_helpers_accept_implies_digest_generated.
 
@@ -283,8 +286,9 @@ Theorem C09_run_ops2_single : forall H dsz uni c0 r0 c1 r1 ops st,
 Proof. exact (fun H dsz uni c0 r0 c1 r1 ops st => run_ops2_single H dsz uni c0 r0 c1 r1 ops st). Qed.
 Print Assumptions C09_run_ops2_single.
 
-Theorem C09_generated_run2_is_model : forall H dsz uni c0 r0 c1 r1 ops st,
-  gen_run_ops2 H dsz uni c0 r0 c1 r1 st ops = run_ops2 H dsz uni c0 r0 c1 r1 st ops.
+(* [pol]: the first helper is driven through AuthTktAuthenticationPolicy (its remember / forget) -- no difference *)
+Theorem C09_generated_run2_is_model : forall H dsz uni pol c0 r0 c1 r1 ops st,
+  gen_run_ops2 H dsz uni pol c0 r0 c1 r1 st ops = run_ops2 H dsz uni c0 r0 c1 r1 st (map op2_of ops).
 Proof. exact gen_run_ops2_is_model. Qed.
 Print Assumptions C09_generated_run2_is_model.
 
@@ -294,3 +298,104 @@ Theorem C09_oracle_complete2 : forall H H' dsz uni c0 r0 c1 r1 ops st,
   run_ops2 H dsz uni c0 r0 c1 r1 st ops = run_ops2 H' dsz uni c0 r0 c1 r1 st ops.
 Proof. exact (fun H H' dsz uni c0 r0 c1 r1 ops st => oracle_complete2 H H' dsz uni c0 r0 c1 r1 ops st). Qed.
 Print Assumptions C09_oracle_complete2.
+
+(* ======================================================================================================
+   Fifth round.  (1) "one fresh, VALID ticket": the ticket the automatic reissue attaches identifies, at any later request
+   of the same client, as the identity the reissuing request was identified as (user-id type preserved, empty tokens
+   dropped), stamped by the later clock reading, as long as now <= that stamp + timeout. *)
+Theorem C09_reissued_ticket_valid : forall H dsz uni c r r2 hs k v,
+  (forall a x, length (H a x) = (dsz a * digest_mult)%nat) ->
+  (forall a x, exists c r, H a x = c :: r /\ c <> strip_ch) ->
+  spec_reissue_ticket H dsz uni c r = Some hs -> In k hs -> ck_value k = Some v ->
+  (0 <= now (later r) < 4294967296)%Z ->
+  cookie r2 = Some v -> eff_ip c r2 = eff_ip c r ->
+  exists ts u tk ud,
+    identify_pre H dsz uni c r = ISome ts u tk ud /\
+    (uval_ok u ->
+     identify_pre H dsz uni c r2 =
+     match spec_issued_identity c (Z.to_N (now (later r))) u (shown_tokens (filter nonempty tk)) (now2 r2) with
+     | Some (ts', u', tk') => ISome ts' u' tk' (userid_typename ++ tag_of u)
+     | None => INone
+     end).
+Proof. exact reissued_ticket_valid. Qed.
+Print Assumptions C09_reissued_ticket_valid.
+
+(* the whole chain for a ticket this helper issued: remember -> presented when older than reissue_time -> the attached
+   ticket presented again: the same user id (type preserved) and tokens, timestamp = the later clock reading *)
+Theorem C09_issued_reissue_chain : forall H dsz uni c r0 u ma toks hs0 k0 v0 r1 hs1 k1 v1 r2,
+  (forall a x, length (H a x) = (dsz a * digest_mult)%nat) ->
+  (forall a x, exists c r, H a x = c :: r /\ c <> strip_ch) ->
+  (0 <= now r0 < 4294967296)%Z -> wf_uval u ->
+  remember H c r0 u ma toks = Some hs0 -> In k0 hs0 -> ck_value k0 = Some v0 ->
+  cookie r1 = Some v0 -> eff_ip c r1 = eff_ip c r0 ->
+  spec_reissue_ticket H dsz uni c r1 = Some hs1 -> In k1 hs1 -> ck_value k1 = Some v1 ->
+  (0 <= now (later r1) < 4294967296)%Z ->
+  cookie r2 = Some v1 -> eff_ip c r2 = eff_ip c r1 ->
+  identify_pre H dsz uni c r2 =
+  match spec_issued_identity c (Z.to_N (now (later r1))) u (shown_tokens toks) (now2 r2) with
+  | Some (ts', u', tk') => ISome ts' u' tk' (userid_typename ++ tag_of u)
+  | None => INone
+  end.
+Proof. exact issued_reissue_chain. Qed.
+Print Assumptions C09_issued_reissue_chain.
+
+(* (2) construction, regenerated from AuthTktCookieHelper.__init__ / AuthTktAuthenticationPolicy.__init__: every keyword
+   reaches the attribute of its name, the CookieProfile gets (name, secure, max_age, httponly, path, samesite), the policy
+   hands every keyword to the helper, and the literal defaults of both signatures are the documented ones *)
+Theorem C09_generated_helper_init_is_model : forall s n se ii to ri ma ho pa wd al pd dm ss,
+  gen_helper_init s n se ii to ri ma ho pa wd al pd dm ss
+  = (helper_cfg s n se ii to ri ma ho pa wd al pd dm ss, profile_of (helper_cfg s n se ii to ri ma ho pa wd al pd dm ss)).
+Proof. exact gen_helper_init_is_model. Qed.
+Print Assumptions C09_generated_helper_init_is_model.
+
+Theorem C09_generated_policy_init_is_model : forall s n se ii to ri ma pa ho wd al pd dm ss,
+  gen_policy_init s n se ii to ri ma pa ho wd al pd dm ss
+  = (helper_cfg s n se ii to ri ma ho pa wd al pd dm ss, profile_of (helper_cfg s n se ii to ri ma ho pa wd al pd dm ss)).
+Proof. exact gen_policy_init_is_model. Qed.
+Print Assumptions C09_generated_policy_init_is_model.
+
+Theorem C09_generated_defaults_are_documented : forall s,
+  gen_helper_defaults s = (default_cfg s, profile_of (default_cfg s))
+  /\ gen_policy_defaults s = (default_cfg s, profile_of (default_cfg s)).
+Proof. exact gen_defaults_are_documented. Qed.
+Print Assumptions C09_generated_defaults_are_documented.
+
+(* the helper a caller ends up with: the configuration asked for, omitted keywords = documented defaults; in particular
+   omitting a keyword whose value is the documented default changes nothing *)
+Theorem C09_construct_is_model : forall pol omit c,
+  construct pol omit c = pick omit c (default_cfg (secret c)).
+Proof. exact construct_is_model. Qed.
+Print Assumptions C09_construct_is_model.
+
+Theorem C09_construct_omitting_defaults : forall pol omit c,
+  mask_ok omit (default_eqs c) = true -> construct pol omit c = c.
+Proof. exact construct_omitting_defaults. Qed.
+Print Assumptions C09_construct_omitting_defaults.
+
+(* (3) the policy wrapper, regenerated: unauthenticated_userid is the user id of the helper's identify (same request
+   state change), remember / forget are the helper's *)
+Theorem C09_generated_policy_userid_is_model : forall H dsz uni c r st,
+  gen_policy_userid H dsz uni c r st = (fst (identify H dsz uni c r st), ures_of (snd (identify H dsz uni c r st))).
+Proof. exact gen_policy_userid_is_model. Qed.
+Print Assumptions C09_generated_policy_userid_is_model.
+
+Theorem C09_generated_policy_remember_forget : forall H c r st a ma toks,
+  gen_policy_remember H c r st a ma toks = gen_remember H c r st a ma toks
+  /\ gen_policy_forget c r st = gen_forget c r st.
+Proof. exact (fun H c r st a ma toks => conj (gen_policy_remember_is_helper H c r st a ma toks) (gen_policy_forget_is_helper c r st)). Qed.
+Print Assumptions C09_generated_policy_remember_forget.
+
+Theorem C09_policy_accept_implies_digest : forall H dsz uni c r st ck0 u,
+  (forall a x, forallb valid_scalar (H a x) = true) -> forallb valid_scalar ck0 = true ->
+  cookie r = Some ck0 ->
+  snd (gen_policy_userid H dsz uni c r st) = USome u ->
+  digest_ok H dsz uni c r ck0 = true.
+Proof. exact gen_policy_accept_implies_digest. Qed.
+Print Assumptions C09_policy_accept_implies_digest.
+
+Theorem C09_policy_total : forall H dsz uni c r st ck0,
+  (forall a x, forallb valid_scalar (H a x) = true) -> forallb valid_scalar ck0 = true ->
+  cookie r = Some ck0 -> digest_ok H dsz uni c r ck0 = false ->
+  gen_policy_userid H dsz uni c r st = (st, UNone).
+Proof. exact gen_policy_total. Qed.
+Print Assumptions C09_policy_total.
